@@ -21,7 +21,7 @@ import gc
 import random
 
 from sim import aioloop as A
-from sim.adata import PrivateAbort, PrivateFault
+from sim.adata import FAULT_CLASSES
 from sim.core import Outcome, digest, exc_key, scrub
 from sim.envs import AE_MODES, CodeMemo
 from sim.probe import PEvents, make_probe_data
@@ -35,7 +35,7 @@ RULE = (
     "macros/call blocks, loops, filters, tests, operators) over Probe data x a history of 3-6 renders (render / generate / "
     "buffered stream / module; async: render_async / generate_async / sync API / make_module_async) in one environment "
     "(Environment or SandboxedEnvironment, sync or async, autoescape on/off); the clean history gives E_r data events per "
-    "render; then the k-th event of render r raises PrivateFault (Exception) or PrivateAbort (BaseException) for every (r, k) "
+    "render; then the k-th event of render r raises a private Exception, a private BaseException or a private subclass of ValueError / RuntimeError / OSError / ZeroDivisionError for every (r, k) "
     "(thorough) or a seeded sample (quick), plus histories with several faulted renders. Non-trivial = at least one fault "
     "fired and at least one clean render followed it; distinct = digest(program, history, fired faults)."
 )
@@ -173,7 +173,7 @@ def run(tape: Tape) -> Outcome:
     faults = []
     for _ in range(nr):
         k = tape.draw(4096, "f")
-        exck = tape.draw(2, "f")
+        exck = tape.draw(len(FAULT_CLASSES), "f")
         faults.append((k, exck))
 
     zero = Tape(streams={})
@@ -201,7 +201,7 @@ def run(tape: Tape) -> Outcome:
         for i, ((entry, api, dseed), (k, exck)) in enumerate(zip(hist, faults)):
             exc = None
             if k:
-                exc = PrivateFault("injected") if exck == 0 else PrivateAbort("injected")
+                exc = FAULT_CLASSES[exck]("injected")
             ev = PEvents(fault_at=k, exc=exc)
             env.globals["gf"].ev = ev
             data = make_probe_data(dseed, ev, is_async=is_async, tape=tape)
@@ -216,7 +216,7 @@ def run(tape: Tape) -> Outcome:
                 any_fired = True
                 out.count("fault_fired")
                 out.count("fault_fired_event_" + str(ev.fired_kind))
-                out.count("fault_fired_exc_" + ("Exception" if exck == 0 else "BaseException"))
+                out.count("fault_fired_exc_" + FAULT_CLASSES[exck].__name__)
                 out.count("fault_fired_api_" + apiname)
                 fired_list.append((i, k, exck, ev.fired_kind))
                 if res[0] == "raised" and res[1] is exc:
@@ -257,7 +257,7 @@ def run(tape: Tape) -> Outcome:
             "templates": P.templates, "sandboxed": sandboxed, "async": is_async, "autoescape": ae, "loopcontrols": lc,
             "history": [{"render": i, "entry": e, "api": (ASYNC_APIS if is_async else SYNC_APIS)[a], "data_seed": d,
                          "fault_at_event": faults[i][0] or None,
-                         "fault_exc": ["PrivateFault(Exception)", "PrivateAbort(BaseException)"][faults[i][1]] if faults[i][0] else None}
+                         "fault_exc": FAULT_CLASSES[faults[i][1]].__name__ if faults[i][0] else None}
                         for i, (e, a, d) in enumerate(hist)],
             "events_per_render": events_per_render, "fired": fired_list, "steps": steps,
         }
@@ -285,11 +285,14 @@ def unit(index: int, seed: int, tier: str):
     plans = []
     for r in range(nr):
         for k in range(1, E[r] + 1):
-            for exck in (0, 1):
+            # the private Exception, the private BaseException and one of the ValueError / RuntimeError / OSError /
+            # ArithmeticError subclasses (a narrowed or broadened except clause usually names a standard class)
+            for exck in (0, 1, 2 + rng.randrange(len(FAULT_CLASSES) - 2)):
                 f = [0, 0] * nr
                 f[2 * r], f[2 * r + 1] = k, exck
                 plans.append(f)
-    limit = 48 if tier == "quick" else 6000
+    limit = 48 if tier == "quick" else 3000
+    total_positions = len(plans)
     if len(plans) > limit:
         plans = rng.sample(plans, limit)
     # a few multi-fault histories
@@ -297,10 +300,14 @@ def unit(index: int, seed: int, tier: str):
         f = []
         for r in range(nr):
             if E[r] and rng.random() < 0.5:
-                f += [1 + rng.randrange(E[r]), rng.randrange(2)]
+                f += [1 + rng.randrange(E[r]), rng.randrange(len(FAULT_CLASSES))]
             else:
                 f += [0, 0]
         plans.append(f)
     for j, f in enumerate(plans):
         tp2 = Tape(base_seed + 1 + j, preset={"w": w, "d": d, "f": f})
-        yield tp2, run(tp2)
+        o2 = run(tp2)
+        if j == 0:
+            o2.count("units_all_fault_positions_enumerated" if total_positions <= limit else "units_fault_positions_sampled")
+            o2.count("fault_positions_total", total_positions)
+        yield tp2, o2
